@@ -343,10 +343,77 @@ def admission (errs : List String) (xrd : Xrd) (server : Crd → Bool) : Admissi
 def admissionCreate (xrd : Xrd) (server : Crd → Bool) : Admission := admission (validate xrd) xrd server
 def admissionUpdate (new old : Xrd) (server : Crd → Bool) : Admission := admission (validateUpdate new old) new server
 
+/-! ### position-wise relation between the XRD's versions and the CRD's versions (for statements) -/
+
+/-- `Zip R as bs`: the lists have equal length and `R` relates the elements at every position -/
+inductive Zip (R : α → β → Prop) : List α → List β → Prop
+  | nil : Zip R [] []
+  | cons {a b as bs} : R a b → Zip R as bs → Zip R (a :: as) (b :: bs)
+
+/-! ### the two derivations under one name (so that each theorem is stated once for both CRDs) -/
+
+inductive Which where
+  | xr | claim
+  deriving DecidableEq, Repr
+
+def derive : Which → Xrd → Except Err Crd
+  | .xr => forXR
+  | .claim => forClaim
+
+/-- the machinery spec table of the current tree -/
+def tableOf : Which → List (String × Schema)
+  | .xr => Xp.Gen.xcrdSpecPropsXR
+  | .claim => Xp.Gen.xcrdSpecPropsClaim
+
+/-- the one machinery property whose `default` an XRD may set, and the XRD's setting -/
+def policyKey : Which → String
+  | .xr => "compositionUpdatePolicy"
+  | .claim => "compositeDeletePolicy"
+
+def policyOf : Which → Xrd → Option String
+  | .xr, d => d.defaultCompositionUpdatePolicy
+  | .claim, d => d.defaultCompositeDeletePolicy
+
+def machineryOf : Which → Xrd → List (String × Schema)
+  | .xr, d => xrSpecMachinery d
+  | .claim, d => claimSpecMachinery d
+
+def columnsOf : Which → List String
+  | .xr => Xp.Gen.xcrdPrinterColumnsXR
+  | .claim => Xp.Gen.xcrdPrinterColumnsClaim
+
+def maxNameLengthOf : Which → Int
+  | .xr => Xp.Gen.xcrdMaxNameLengthXR
+  | .claim => Xp.Gen.xcrdMaxNameLengthClaim
+
+/-- the four corresponding name fields validateClaimNames compares -/
+def claimNamesCollide (c n : Names) : Prop :=
+  c.kind = n.kind ∨ c.plural = n.plural ∨ (c.singular ≠ "" ∧ c.singular = n.singular) ∨ (c.listKind ≠ "" ∧ c.listKind = n.listKind)
+
 /-! ### shape of a machinery table (used to state what "standard schema" means independently of the table) -/
 
 /-- (key, type, required, property names) of every entry -/
 def shape (t : List (String × Schema)) : List (String × String × List String × List String) :=
   t.map fun (k, s) => (k, s.type, s.required, keys s.props)
+
+/-! ### example input used by the non-vacuity examples of Props/C11 -/
+
+/-- an author schema that tries to shadow machinery: `spec.claimRef` and `status.conditions` as strings -/
+def exSchema : Schema :=
+  { type := "object", description := "A database.",
+    props := [
+      ("spec", { type := "object", required := ["region"], xValidations := ["{\"rule\":\"self.region != ''\"}"],
+                 oneOf := ["{\"required\":[\"region\"]}"], preserveUnknown := some true,
+                 props := [("region", { type := "string" }), ("claimRef", { type := "string", description := "mine" })] }),
+      ("status", { type := "object", props := [("conditions", { type := "string" }), ("address", { type := "string" })] }),
+      ("metadata", { type := "object", props := [("name", { maxLength := some 30 })] })] }
+
+def exXrd : Xrd :=
+  { name := "xdatabases.example.org", uid := "u1", group := "example.org",
+    names := { kind := "XDatabase", plural := "xdatabases", singular := "xdatabase" },
+    claimNames := some { kind := "Database", plural := "databases", singular := "database" },
+    defaultCompositionUpdatePolicy := some "Manual",
+    versions := [{ name := "v1alpha1", served := true, referenceable := false, schema := .ok exSchema },
+                 { name := "v1", served := true, referenceable := true, schema := .ok {} }] }
 
 end Xp.C11
